@@ -181,6 +181,10 @@ namespace nmtools::meta
                     constexpr auto N = len_v<shape_t>;
                     using type = nmtools_array<index_t,N>;
                     return as_value_v<type>;
+                } else if constexpr (is_clipped_index_array_v<shape_t>) {
+                    // the extent at axis is the number of indices, not bounded by the src extent
+                    using type = remove_cvref_t<decltype(to_value_v<shape_t>)>;
+                    return as_value_v<type>;
                 } else {
                     // when slicing at given axis, the resulting shape type follow original shape
                     return as_value_v<shape_t>;
